@@ -32,6 +32,12 @@ def optN (j : Json) (k : String) : Except String (Option Nat) :=
   | none => pure none
   | some v => do pure (some (← getN v))
 
+/-- optional boolean field, `true` when absent -/
+def optB (j : Json) (k : String) : Except String Bool :=
+  match optJ j k with
+  | none => pure true
+  | some v => getB v
+
 def parseMode (s : String) : Mode :=
   match s with
   | "truncate" => .truncate
@@ -99,7 +105,7 @@ def parseOp (j : Json) : Except String (Op Rat) := do
   | "newStore" => do pure (.newStore (parseMode (← fldS j "mode")))
   | "setMode" => do pure (.setMode (← fldN j "sid") (parseMode (← fldS j "mode")))
   | "start" => do pure (.start (← fldN j "sid") (← fldN j "fid"))
-  | "append" => do pure (.append (← fldN j "sid") (← fldN j "fid") (← optQ j "t"))
+  | "append" => do pure (.append (← fldN j "sid") (← fldN j "fid") (← optQ j "t") (← optB j "cast"))
   | "end" => do pure (.endW (← fldN j "sid"))
   | "clear" => do pure (.clear (← fldN j "sid") (← fldB j "shape"))
   | "read" => do pure (.read (← fldN j "sid") (← fldI j "i"))
@@ -118,7 +124,7 @@ def parseOp (j : Json) : Except String (Op Rat) := do
   | "viewRead" => do pure (.viewRead (← fldN j "sid") (← parseFieldId j "field") (← fldI j "k"))
   | "viewItems" => do pure (.viewItems (← fldN j "sid") (← parseFieldId j "field"))
   | "apply" => do
-    pure (.apply (← fldN j "sid") (← parseFunc (← fld j "func")) (← optN j "out"))
+    pure (.apply (← fldN j "sid") (← parseFunc (← fld j "func")) (← optN j "out") (← optB j "cast"))
   | "fromFields" => do
     pure (.fromFields (← fldQs j "times") (← fldNs j "fids") (parseMode (← fldS j "mode")))
   | "fromCollection" => do
